@@ -591,9 +591,18 @@ func reifyArray(
 	to reflect.Value, tTo reflect.Type,
 	val value,
 ) (reflect.Value, Error) {
-	arr, err := castArr(opts.opts, val)
+	arr, viaRef, err := castArrRef(opts.opts, val)
 	if err != nil {
 		return reflect.Value{}, err
+	}
+	if viaRef {
+		// reaching this reference again below one of the elements of the list
+		// it refers to is a cycle
+		leave, err := opts.opts.enterDynamic(val)
+		if err != nil {
+			return reflect.Value{}, err
+		}
+		defer leave()
 	}
 
 	if len(arr) != tTo.Len() {
@@ -617,9 +626,18 @@ func reifySliceMerge(
 	tTo reflect.Type,
 	val value,
 ) (reflect.Value, Error) {
-	arr, err := castArr(opts.opts, val)
+	arr, viaRef, err := castArrRef(opts.opts, val)
 	if err != nil {
 		return reflect.Value{}, err
+	}
+	if viaRef {
+		// reaching this reference again below one of the elements of the list
+		// it refers to is a cycle
+		leave, err := opts.opts.enterDynamic(val)
+		if err != nil {
+			return reflect.Value{}, err
+		}
+		defer leave()
 	}
 
 	arrMergeCfg := opts.configHandling()
@@ -665,16 +683,6 @@ func reifyDoArray(
 	val value,
 	arr []value,
 ) (reflect.Value, Error) {
-	if len(arr) > 0 && arr[0] != val {
-		// val is a reference to a list (not a primitive taken as a list of
-		// one): reaching it again below one of its own elements is a cycle
-		leave, err := opts.opts.enterDynamic(val)
-		if err != nil {
-			return reflect.Value{}, err
-		}
-		defer leave()
-	}
-
 	aLen := len(arr)
 	tLen := to.Len()
 	for idx := 0; idx < tLen; idx++ {
@@ -707,8 +715,16 @@ func reifyDoArray(
 }
 
 func castArr(opts *options, v value) ([]value, Error) {
+	arr, _, err := castArrRef(opts, v)
+	return arr, err
+}
+
+// castArrRef returns the elements v stands for, and whether v is a reference
+// that was followed to a list (rather than a list itself, or a primitive taken
+// as a list of one entry).
+func castArrRef(opts *options, v value) ([]value, bool, Error) {
 	if sub, ok := v.(cfgSub); ok {
-		return sub.c.fields.array(), nil
+		return sub.c.fields.array(), false, nil
 	}
 	if ref, ok := v.(*cfgDynamic); ok {
 		// the reference is only under evaluation while it is resolved here
@@ -717,9 +733,9 @@ func castArr(opts *options, v value) ([]value, Error) {
 		if next, ok := unrefed.(*cfgDynamic); ok && err == nil {
 			// a reference to a reference: follow it while this one is still
 			// under evaluation, so that a chain leading back here is noticed
-			arr, err := castArr(opts, next)
+			arr, viaRef, err := castArrRef(opts, next)
 			leave()
-			return arr, err
+			return arr, viaRef, err
 		}
 		leave()
 		if err != nil {
@@ -727,25 +743,25 @@ func castArr(opts *options, v value) ([]value, Error) {
 			// source that setting was loaded from (its parent - the root for
 			// a top-level setting - has none)
 			ctx := ref.Context()
-			return nil, raisePathErr(ErrMissing, ref.meta(), err.Error(), ctx.path("."))
+			return nil, false, raisePathErr(ErrMissing, ref.meta(), err.Error(), ctx.path("."))
 		}
 
 		if sub, ok := unrefed.(cfgSub); ok {
-			return sub.c.fields.array(), nil
+			return sub.c.fields.array(), true, nil
 		}
 	}
 
 	l, err := v.Len(opts)
 	if err != nil {
 		ctx := v.Context()
-		return nil, raisePathErr(err, v.meta(), "", ctx.path("."))
+		return nil, false, raisePathErr(err, v.meta(), "", ctx.path("."))
 	}
 
 	if l == 0 {
-		return nil, nil
+		return nil, false, nil
 	}
 
-	return []value{v}, nil
+	return []value{v}, false, nil
 }
 
 func reifyPrimitive(
